@@ -40,8 +40,12 @@
 (*     * DS evaluated at the tuple's epoch (IsoPpm) - "distances between   *)
 (*     transformed points are the original distances times the scale".     *)
 (*                                                                         *)
-(* NOT modelled (not claimed): the second-order error of the small-angle   *)
-(* inverse, Molodensky.                                                    *)
+(*  6. small-angle mode: the inverse applies I - arcsec K where the forward *)
+(*     applied I + arcsec K; (I - K)(I + K) = I - K^2 and |K| = |r|, so    *)
+(*     inverse after forward leaves at most |r(t)|^2 |x| (`second`: the    *)
+(*     rotation vector in force at each epoch, in arc seconds).            *)
+(*                                                                         *)
+(* NOT modelled (not claimed): Molodensky.                                 *)
 (***************************************************************************)
 EXTENDS Values, Json
 
@@ -393,6 +397,8 @@ EmitDef == AtStart =>
                     THEN DefText([core EXCEPT !.conv = Other(core.conv)], CanonSp) ELSE "",
         epochs  |-> RealEpochs,
         \* exact mode: a similarity; its scale in ppm at each epoch of the pool
+        \* small-angle mode: (I - K)(I + K) = I - K^2, so the inverse undoes the forward up to |r(t)|^2 |x|
+        second  |-> IF P0.ok /\ P0.rotated /\ ~core.exact THEN {<<e, At(P0, e).R>> : e \in RealEpochs} ELSE {},
         iso     |-> P0.ok /\ P0.rotated /\ core.exact,
         isoppm  |-> IF P0.ok /\ P0.rotated /\ core.exact THEN {<<e, IsoPpm(e)>> : e \in RealEpochs} ELSE {}
     ])>>)
